@@ -98,6 +98,18 @@ class Generated:
 def _apply_common(piece, blk):
     keep = set(blk.get('keep_attrs', '').split())
     piece.strip_attrs([a for a in ALWAYS_STRIP if a not in keep])
+    # logging statements `tracing::<level>!(...);` are dropped like the tracing attributes (built-in strip, counted)
+    s_all = piece.src.s
+    k = piece.a
+    while k + 4 <= piece.b:
+        if s_all[k].text == 'tracing' and s_all[k + 1].text == '::' and s_all[k + 3].text == '!' and s_all[k + 4].text == '(' \
+                and s_all[k + 2].text in ('trace', 'debug', 'info', 'warn', 'error'):
+            close = rtok.match_close(s_all, k + 4)
+            end = close + 1 if close + 1 <= piece.b and s_all[close + 1].text == ';' else close
+            piece.delete_tokens(k, end, 'strip_tracing_stmt')
+            k = end + 1
+            continue
+        k += 1
     # Verus rejects `_` as a closure parameter: name the ignored binder (built-in rewrite, counted)
     piece.rewrite_all('|_|', '|_vx|', kind='rewrite:closure_underscore')
     for w in blk.get('strip', '').split():
